@@ -54,6 +54,8 @@ def run(F, R, ctx):
     jitmodel.name_table_gate_rule(F, R, "C02.n")
     jitmodel.branch_facts_rule(F, R, "C02.f")
     jitmodel.assigned_local_rule(F, R, "C02.k")
+    from . import c03
+    c03.jit_move_rule(F, R, "C02.m")
 
 
 def _run(F, R, ctx):
